@@ -69,6 +69,7 @@ def case(draw):
                 off = Fr(0)
             params.append((str(s), str(off)))
         c["custom"] = {"dim": draw(st.sampled_from(["temperature", "angle"])), "params": params}
+        c["custom"]["si_default"] = draw(st.booleans())
         if draw(st.integers(0, 2)) == 0:
             # history: the same registry first held other definitions of tX / tY and served conversions with them
             c["custom"]["pre"] = [(str(draw(st.fractions(min_value=Fr(1, 8), max_value=64, max_denominator=8))), str(draw(st.fractions(min_value=-100, max_value=100, max_denominator=4)))) for _ in range(2)]
@@ -92,7 +93,7 @@ def _registry(case):
     reg = UnitRegistry()
     dim = getattr(D, cu["dim"])
     si = "K" if cu["dim"] == "temperature" else "rad"
-    model = {"SI": (Fr(1), Fr(0), si)}
+    model = {"SI": (Fr(1), Fr(0), si, bool(cu.get("si_default")))}
     if cu.get("pre"):
         from unyt import Unit, unyt_array
 
@@ -121,6 +122,8 @@ def _unit(name, reg, model):
 
     if name == "SI":
         name = model["SI"][2]
+        if len(model["SI"]) > 3 and model["SI"][3]:
+            return Unit(name)  # the SI unit of the *default* registry: conversions across registries go by the units' own definitions
     return Unit(name, registry=reg)
 
 
